@@ -211,9 +211,8 @@ def ladder (q : Quirks) : List (List ExcType × Handler) :=
     ([.exception], .exception) ]
 
 /-- Python's `try/except`: the first clause naming a class of the exception handles it -/
-def dispatch : List (List ExcType × Handler) → ExcType → Option Handler
-  | [], _ => none
-  | (ts, h) :: rest, t => if t ∈ ts then some h else dispatch rest t
+def dispatch (l : List (List ExcType × Handler)) (t : ExcType) : Option Handler :=
+  (l.find? fun p => decide (t ∈ p.1)).map (·.2)
 
 def handle (k : Kind) : Handler → Exc → Nat
   | .sigint, _ => SIGINT_EXIT
@@ -255,32 +254,74 @@ def finish (c : Cfg) (code : Nat) (st : St) : St :=
   let st := if c.art then { st.step with metaFile := some ⟨code, 0, stop⟩ } else st
   { st.step with logOpen := false }
 
-def entryPointQ (q : Quirks) (c : Cfg) (s : Script) : Final :=
+/-- flock, artifacts directory + log handler, pre-hook; `true` = the hook's UnboundLocalError escapes -/
+def prePhase (q : Quirks) (c : Cfg) (s : Script) : St × Bool :=
   let st : St := {}
-  -- flock
   let st := if c.lock then { st.step with lockHeld := true } else st
-  -- artifacts dir + log handler
   let st := if c.art then { st.step with logOpen := true } else st
-  -- pre-hook
-  let (st, esc) := if c.hooks then runHook q .pre s.preFails { st.obs .pre with preRan := true } else (st, false)
-  if esc then st.final .escHook else
-  -- _db_insert_run_meta
-  let st := if c.db then { st.step with dbConn := true, dbRow := .running st.tick } else st
-  -- try: run()  except ...
-  let (st, exc) := runBody q c.kind s st
-  let (code, propagate) := mapExit q c.kind exc
-  -- finally
-  let st := finish c code st
-  if propagate then st.final .escCancelled else
-  -- post-hook
-  let (st, esc) :=
-    if c.hooks then
-      runHook q .post s.postFails { st.obs .post with postEnv := some ⟨code, code, st.endTime⟩ }
-    else (st, false)
-  if esc then st.final .escHook else
-  -- release the lock
-  let st := if c.lock then { st.step with lockHeld := false } else st
-  st.final (.ret code)
+  if c.hooks then runHook q .pre s.preFails { st.obs .pre with preRan := true } else (st, false)
+
+/-- `_db_insert_run_meta` -/
+def dbInsert (c : Cfg) (st : St) : St :=
+  if c.db then { st.step with dbConn := true, dbRow := .running st.tick } else st
+
+/-- post-hook with `GALLIA_EXIT_CODE` and `GALLIA_META` -/
+def postPhase (q : Quirks) (c : Cfg) (s : Script) (code : Nat) (st : St) : St × Bool :=
+  if c.hooks then
+    runHook q .post s.postFails { st.obs .post with postEnv := some ⟨code, code, st.endTime⟩ }
+  else (st, false)
+
+/-- `_release_flock` -/
+def unlock (c : Cfg) (st : St) : St :=
+  if c.lock then { st.step with lockHeld := false } else st
+
+def entryPointQ (q : Quirks) (c : Cfg) (s : Script) : Final :=
+  let p := prePhase q c s
+  if p.2 then p.1.final .escHook else           -- nothing below runs
+  let r := runBody q c.kind s (dbInsert c p.1)  -- try: exit_code = await self.run()
+  let m := mapExit q c.kind r.2                 -- except ...
+  let st := finish c m.1 r.1                    -- finally: ...
+  if m.2 then st.final .escCancelled else       -- the exception keeps propagating
+  let h := postPhase q c s m.1 st
+  if h.2 then h.1.final .escHook else
+  (unlock c h.1).final (.ret m.1)
+
+/-! ### names used by the agreement theorems with the tables regenerated from the source (`Gen.C15Exit`) -/
+
+def ExcType.pyName : ExcType → String
+  | .keyboardInterrupt => "KeyboardInterrupt"
+  | .systemExit => "SystemExit"
+  | .exception => "Exception"
+  | .cancelledError => "CancelledError"
+
+def ExcType.genName : ExcType → String
+  | .keyboardInterrupt => "keyboardInterrupt"
+  | .systemExit => "systemExit"
+  | .exception => "exception"
+  | .cancelledError => "cancelledError"
+
+def Handler.name : Handler → String
+  | .sigint => "sigint"
+  | .sysexit => "sysexit"
+  | .exception => "exception"
+
+def ErrClass.name : ErrClass → String
+  | .conn => "conn"
+  | .uds => "uds"
+  | .other => "other"
+
+def ladderNames (q : Quirks) : List (List String × String) :=
+  (ladder q).map fun p => (p.1.map ExcType.pyName, p.2.name)
+
+/-- the statements of `entry_point` in the order `entryPointQ` executes them -/
+def modelSteps : List String :=
+  ["lock", "artifacts", "log_open", "pre_hook", "db_insert", "exit_code=0", "try_run",
+   "finally:meta.exit_code", "finally:meta.end_time", "finally:db_finish", "finally:meta_write", "finally:log_close",
+   "post_hook", "unlock", "return"]
+
+/-- `AsyncScript.run` as `runBody` reads it -/
+def modelRunShape : List String :=
+  ["await self.setup()", "try:await self.main()", "finally:await self.teardown()", "return exitcodes.OK"]
 
 /-- the code as it is now -/
 def entryPoint (c : Cfg) (s : Script) : Final := entryPointQ {} c s
